@@ -503,6 +503,8 @@ func CheckC07(e *Env) int {
 	}
 	// structured scaling families, one wire invocation each, with hook step counts
 	scaling(e, rep)
+	// an erroneous set below a lattice of set inclusions: the report must not repeat per path
+	errorLattices(e, rep)
 	rep.Assumptions = []string{"termination is claimed only as: every explored input finished within the hook step cap (400*(n+1)^2 loop iterations per activation) and within the linear budget 16*(V+E)+64 on the scaling families"}
 	return rep.Finish(t0)
 }
@@ -593,6 +595,36 @@ func scaling(e *Env, rep *Report) {
 		family string
 		size   int
 		nodes  []GNode
+		// prog, when set, builds the program instead of graphProgram(nodes); v and e are its size
+		prog func(id string) *Program
+		v, e int
+	}
+	// a chain of interface bindings In -> ... -> I1 -> *T, listed from the concrete end or from
+	// the far end; the injector needs In only, so every other binding counts as used only
+	// because the one above it is
+	bindChain := func(n int, reversed bool) func(id string) *Program {
+		return func(id string) *Program {
+			b := NewPB(id, "app")
+			t := b.NamedOf(0, "T", StructOf(FieldT{Name: "X", Ty: Basic("int")}), "none")
+			t.Decl.Methods = append(t.Decl.Methods, Method{Name: "M", PtrRecv: true})
+			f := b.Func(0, "NewT", PtrTo(t), false, false)
+			f.Stub = true
+			prev := PtrTo(t)
+			var binds []Ref
+			for k := 1; k <= n; k++ {
+				ik := Named(b.P.NewDecl(0, fmt.Sprintf("I%d", k), &Ty{K: "iface", Meths: []string{"M"}, Params: []*Ty{PtrTo(t)}}, "iface"))
+				binds = append(binds, ItemRef(b.Bind(ik, prev).ID))
+				prev = ik
+			}
+			if reversed {
+				for i, j := 0, len(binds)-1; i < j; i, j = i+1, j-1 {
+					binds[i], binds[j] = binds[j], binds[i]
+				}
+			}
+			// listed in wire.Build itself: only there is every item checked for being used
+			b.Inj("Init", prev, false, false, nil, append([]Ref{ItemRef(f.ID)}, binds...)...)
+			return b.P
+		}
 	}
 	var cases []sc
 	lattice := func(depth int) []GNode {
@@ -630,9 +662,9 @@ func scaling(e *Env, rep *Report) {
 		chains = []int{50, 200, 1000}
 	}
 	for _, d := range depths {
-		cases = append(cases, sc{"lattice", d, lattice(d)})
+		cases = append(cases, sc{family: "lattice", size: d, nodes: lattice(d)})
 		if d <= 20 || e.Tier == "thorough" {
-			cases = append(cases, sc{"lattice-struct", d, latticeStruct(d)}, sc{"lattice-bind", d, latticeVia("bind", d)}, sc{"lattice-field", d, latticeVia("field", d)})
+			cases = append(cases, sc{family: "lattice-struct", size: d, nodes: latticeStruct(d)}, sc{family: "lattice-bind", size: d, nodes: latticeVia("bind", d)}, sc{family: "lattice-field", size: d, nodes: latticeVia("field", d)})
 		}
 	}
 	for _, n := range chains {
@@ -643,7 +675,7 @@ func scaling(e *Env, rep *Report) {
 				g[u].Deps = []int{u + 1}
 			}
 		}
-		cases = append(cases, sc{"chain", n, g})
+		cases = append(cases, sc{family: "chain", size: n, nodes: g})
 	}
 	{
 		g := []GNode{{Kind: "struct"}}
@@ -651,7 +683,14 @@ func scaling(e *Env, rep *Report) {
 			g[0].Deps = append(g[0].Deps, i)
 			g = append(g, GNode{Kind: "func"})
 		}
-		cases = append(cases, sc{"fanout", 50, g})
+		cases = append(cases, sc{family: "fanout", size: 50, nodes: g})
+	}
+	for _, n := range chains {
+		if n > 200 {
+			n = 400
+		}
+		cases = append(cases, sc{family: "bind-chain", size: n, prog: bindChain(n, false), v: n + 1, e: n},
+			sc{family: "bind-chain-listed-backwards", size: n, prog: bindChain(n, true), v: n + 1, e: n})
 	}
 	type obs struct {
 		solve, acyclic int
@@ -663,13 +702,23 @@ func scaling(e *Env, rep *Report) {
 	}, len(cases))
 	e.ParallelDo(len(cases), func(i int) {
 		c := cases[i]
-		p := graphProgram(fmt.Sprintf("sc_%s%d", c.family, c.size), c.nodes, 0, false)
+		var p *Program
+		if c.prog != nil {
+			p = c.prog(fmt.Sprintf("sc_%s%d", c.family, c.size))
+		} else {
+			p = graphProgram(fmt.Sprintf("sc_%s%d", c.family, c.size), c.nodes, 0, false)
+		}
 		res, steps, _ := runSolo(e, p, "gen")
 		results[i].res, results[i].steps = res, steps
 	})
 	for i, c := range cases {
 		res, steps := results[i].res, results[i].steps
-		p := graphProgram(fmt.Sprintf("sc_%s%d", c.family, c.size), c.nodes, 0, false)
+		var p *Program
+		if c.prog != nil {
+			p = c.prog(fmt.Sprintf("sc_%s%d", c.family, c.size))
+		} else {
+			p = graphProgram(fmt.Sprintf("sc_%s%d", c.family, c.size), c.nodes, 0, false)
+		}
 		name := fmt.Sprintf("%s-%d", c.family, c.size)
 		sig := "scaling;" + name
 		if res.TimedOut {
@@ -693,11 +742,15 @@ func scaling(e *Env, rep *Report) {
 			continue
 		}
 		V, E := len(c.nodes), graphEdges(c.nodes)
+		if c.prog != nil {
+			V, E = c.v, c.e
+		}
 		budget := 16*(V+E) + 64
 		rep.Count("hook_steps_solve_"+name, steps["solve"])
 		rep.Count("hook_steps_acyclic_"+name, steps["acyclic"])
-		if steps["solve"] > budget || steps["acyclic"] > budget {
-			rep.Violate("sc_"+name, Issue{Prop: "C07", Clause: fmt.Sprintf("analysis work not linear in graph size on %s: solve=%d acyclic=%d steps, budget %d for V=%d E=%d", name, steps["solve"], steps["acyclic"], budget, V, E), Sig: "C07:budget:" + c.family}, p.Files(false), nil)
+		rep.Count("hook_steps_used_"+name, steps["used"])
+		if steps["solve"] > budget || steps["acyclic"] > budget || steps["used"] > budget {
+			rep.Violate("sc_"+name, Issue{Prop: "C07", Clause: fmt.Sprintf("analysis work not linear in graph size on %s: solve=%d acyclic=%d used=%d steps, budget %d for V=%d E=%d", name, steps["solve"], steps["acyclic"], steps["used"], budget, V, E), Sig: "C07:budget:" + c.family}, p.Files(false), nil)
 			continue
 		}
 		if seen[c.family] == nil {
@@ -716,5 +769,83 @@ func scaling(e *Env, rep *Report) {
 				}
 			}
 		}
+	}
+}
+
+// errorLattices: a leaf set that is in error (a cycle, two providers of one type, a binding
+// without a provider) sits under d levels of set variables, every level including both sets
+// of the level below, so the leaf is reached along 2^d inclusion paths. Observed: the number
+// of diagnostic lines wire prints (never time). It has to stay within a linear budget and must
+// not more than triple when d doubles.
+func errorLattices(e *Env, rep *Report) {
+	leaves := []struct{ name, src string }{
+		{"cycle", "func NewA(B) A { return A{} }\nfunc NewB(A) B { return B{} }\n\nvar Leaf = wire.NewSet(NewA, NewB)\n"},
+		{"two-providers", "func NewA() A { return A{} }\nfunc OtherA() A { return A{} }\n\nvar Leaf = wire.NewSet(NewA, OtherA)\n"},
+		{"binding-without-provider", "type I interface{ M() }\n\nfunc (B) M() {}\n\nfunc NewA(I) A { return A{} }\n\nvar Leaf = wire.NewSet(NewA, wire.Bind(new(I), new(B)))\n"},
+	}
+	depths := []int{4, 8, 16}
+	type job struct {
+		leaf  int
+		depth int
+		cmd   string
+	}
+	var jobs []job
+	for li := range leaves {
+		for _, d := range depths {
+			jobs = append(jobs, job{li, d, "check"}, job{li, d, "gen"})
+		}
+	}
+	lines := make([]int, len(jobs))
+	res := make([]*CmdResult, len(jobs))
+	progs := make([]*Program, len(jobs))
+	e.ParallelDo(len(jobs), func(i int) {
+		j := jobs[i]
+		var src strings.Builder
+		src.WriteString("package app\n\nimport \"github.com/google/wire\"\n\ntype A struct{}\ntype B struct{}\n\n" + leaves[j.leaf].src)
+		src.WriteString("\nvar L0a = wire.NewSet(Leaf)\nvar L0b = wire.NewSet(Leaf)\n")
+		for k := 1; k <= j.depth; k++ {
+			fmt.Fprintf(&src, "var L%da = wire.NewSet(L%da, L%db)\nvar L%db = wire.NewSet(L%da, L%db)\n", k, k-1, k-1, k, k-1, k-1)
+		}
+		p := &Program{ID: fmt.Sprintf("el_%s_%d_%s", leaves[j.leaf].name, j.depth, j.cmd), Module: ModulePath, Extra: map[string]string{}, Feat: map[string]string{}, RawDriver: true}
+		p.Pkgs = []*Pkg{{Name: "app", Dir: "app"}}
+		p.Extra["0/sets.go"] = src.String()
+		p.Extra["0/wire.go"] = fmt.Sprintf("//go:build wireinject\n// +build wireinject\n\npackage app\n\nimport \"github.com/google/wire\"\n\nfunc Init() A {\n\tpanic(wire.Build(L%da))\n}\n", j.depth)
+		progs[i] = p
+		r, _, _ := runSolo(e, p, j.cmd)
+		res[i] = r
+		lines[i] = strings.Count(r.Stderr, "\n")
+	})
+	byKey := map[string]int{}
+	for i, j := range jobs {
+		name := fmt.Sprintf("error-lattice/%s/%s/depth=%d", leaves[j.leaf].name, j.cmd, j.depth)
+		fam := fmt.Sprintf("error-lattice/%s/%s", leaves[j.leaf].name, j.cmd)
+		r := res[i]
+		rep.Count("diagnostic_lines_"+name, lines[i])
+		switch {
+		case r.TimedOut:
+			rep.Incon = append(rep.Incon, "watchdog on "+name)
+			continue
+		case strings.Contains(r.Stderr, "VERIF-STEP-CAP"):
+			rep.Violate(progs[i].ID, Issue{Prop: "C07", Clause: "step cap exceeded on " + fam, Witness: tail(r.Stderr, 500), Sig: "C07:stepcap:" + fam}, progs[i].Files(false), nil)
+			continue
+		case r.Crashed():
+			rep.Violate(progs[i].ID, Issue{Prop: "C07", Clause: "crash on " + name, Witness: tail(r.Stderr, 2000), Sig: "C07:crash:" + fam}, progs[i].Files(false), nil)
+			continue
+		case r.Exit == 0:
+			rep.Violate(progs[i].ID, Issue{Prop: "C07", Clause: "erroneous leaf set accepted under " + name, Witness: tail(r.Stderr, 500), Sig: "C07:accepted:" + fam}, progs[i].Files(false), nil)
+			continue
+		}
+		// every set of every level may report a bounded number of diagnostics of its own
+		budget := 64 * (j.depth + 2)
+		if lines[i] > budget {
+			rep.Violate(progs[i].ID, Issue{Prop: "C07", Clause: fmt.Sprintf("report grows with the number of inclusion paths on %s: %d diagnostic lines, budget %d", name, lines[i], budget), Witness: firstN(r.Stderr, 1500), Sig: "C07:error-lattice:" + fam}, progs[i].Files(false), nil)
+			continue
+		}
+		byKey[fmt.Sprintf("%s/%d", fam, j.depth)] = lines[i]
+		if half, ok := byKey[fmt.Sprintf("%s/%d", fam, j.depth/2)]; ok && lines[i] > 3*half+16 {
+			rep.Violate(progs[i].ID, Issue{Prop: "C07", Clause: fmt.Sprintf("diagnostic lines more than triple when the depth doubles on %s: %d -> %d", name, half, lines[i]), Witness: firstN(r.Stderr, 1500), Sig: "C07:error-lattice-doubling:" + fam}, progs[i].Files(false), nil)
+			continue
+		}
+		rep.Held(name)
 	}
 }
